@@ -209,6 +209,25 @@ fn seeds(prop: &str) -> Vec<(&'static str, Vec<Op>)> {
             ],
         ));
     }
+    if prop == "C03" || prop == "C01" || prop == "C07" {
+        // three single-key files side by side in the oldest level (concatenating cursors, level
+        // lower/upper bound searches), under a newer file
+        v.push((
+            "huge-three-files-in-l15",
+            vec![
+                Op::PutHuge(1),
+                Op::Flush,
+                Op::CompactAll,
+                Op::PutHuge(0),
+                Op::PutHuge(2),
+                Op::Flush,
+                Op::CompactAll,
+                Op::PutHuge(0),
+                Op::Flush,
+                Op::CompactAll,
+            ],
+        ));
+    }
     if prop == "C05" {
         v.push((
             "big-values-two-levels",
